@@ -1,6 +1,7 @@
 package scen
 
 import (
+	"bytes"
 	"fmt"
 	"sort"
 	"strconv"
@@ -16,7 +17,7 @@ import (
 )
 
 // C07 — plan space accounting matches the files actually held.
-type C07 struct{}
+type C07 struct{ Seeded bool } // Seeded: starts from a pay-once file and a plan-paid file, each with a prover; small alphabet, deeper
 
 var c07Files = map[string]*sfile{"400": mkFile(seqBytes(9, 4), 1024), "600": mkFile(seqBytes(9, 6), 1024), "max": mkFile(seqBytes(9, 9), 1024), "neg": mkFile(seqBytes(9, 3), 1024)}
 var c07Size = map[string]int64{"400": 400_000_000, "600": 600_000_000, "max": 1<<63 - 1, "neg": -400_000_000}
@@ -29,20 +30,66 @@ type c07Model struct {
 
 func (m c07Model) Key() []byte { return jkey(m) }
 
-func (C07) ID() string   { return "C07" }
-func (C07) Name() string { return "C07/plan-space" }
+func (C07) ID() string { return "C07" }
+func (s C07) Name() string {
+	if s.Seeded {
+		return "C07/plan-space-seeded"
+	}
+	return "C07/plan-space"
+}
 func (C07) Config() world.Config {
 	return world.Config{
 		Accounts: []string{"U1", "U2", "P"},
 		Storage:  func(p *storagetypes.Params) { p.ProofWindow, p.CheckWindow = 3, 2 },
 	}
 }
-func (C07) Stores() []string            { return []string{"storage", "bank"} }
-func (C07) Init(env world.Env) mc.Model { return c07Model{} }
+func (C07) Stores() []string { return []string{"storage", "bank"} }
+func (s C07) Init(env world.Env) mc.Model {
+	if !s.Seeded {
+		return c07Model{}
+	}
+	w := env.W()
+	for _, u := range c07Users {
+		a := w.A(u).Bech
+		mustOK(env.Deliver(storagetypes.NewMsgBuyStorage(a, a, 30, 1_000_000_000, "ujkl")), "BuyStorage")
+	}
+	mustOK(env.Deliver(storagetypes.NewMsgInitProvider(w.A("P").Bech, "https://node.holder.com", 1_000_000_000, "kb")), "InitProvider")
+	h := env.Ctx().BlockHeight()
+	// the pay-once file is the one whose Merkle root sorts first (reward blocks walk the files in that order)
+	po, pp := "400", "600"
+	if bytes.Compare(c07Files[po].merkle, c07Files[pp].merkle) > 0 {
+		po, pp = pp, po
+	}
+	once := storagetypes.NewMsgPostFile(w.A("U2").Bech, c07Files[po].merkle, c07Size[po], 0, 0, 1, "{}")
+	once.Expires = h + 200_000
+	mustOK(env.Deliver(once), "pay-once post")
+	mustOK(env.Deliver(storagetypes.NewMsgPostFile(w.A("U1").Bech, c07Files[pp].merkle, c07Size[pp], 0, 0, 1, "{}")), "plan-paid post")
+	m := c07Model{Posts: 2}
+	for _, x := range [][2]string{{"U2", po}, {"U1", pp}} {
+		f := c07Files[x[1]]
+		item, hl := f.proofFor(0)
+		if ok, e := postProofOK(w, env.Deliver(storagetypes.NewMsgPostProof(w.A("P").Bech, f.merkle, w.A(x[0]).Bech, h, item, hl, 0))); !ok {
+			panic("seed proof: " + e)
+		}
+		m.Files = append(m.Files, x[0]+"|"+x[1]+"|"+strconv.FormatInt(h, 10))
+	}
+	sort.Strings(m.Files)
+	return m
+}
 
-func (C07) Events(env world.Env, mm mc.Model) []string {
+func (s C07) Events(env world.Env, mm mc.Model) []string {
 	m := mm.(c07Model)
 	var evs []string
+	if s.Seeded {
+		for _, id := range m.Files {
+			fp := strings.Split(id, "|")
+			evs = append(evs, "Delete:"+fp[0]+":"+fp[1]+":"+fp[2], "Proof:P:"+id)
+		}
+		if m.Blocks < 7 {
+			evs = append(evs, "NextBlock")
+		}
+		return evs
+	}
 	for _, u := range c07Users {
 		evs = append(evs, "Buy:"+u+":1", "Buy:"+u+":2")
 	}
@@ -260,9 +307,12 @@ func (C07) Apply(env world.Env, mm mc.Model, ev string) mc.Step {
 
 func init() {
 	regScenario(C07{})
+	regScenario(C07{Seeded: true})
 	Props["C07"] = Prop{Level: "model_checking", Run: func(r *mc.Run, tier string) {
 		r.Rules = append(r.Rules, "BFS over buy/upgrade (1 GB, 2 GB) by 2 accounts, plan-paid posts (0.4/0.6 GB x replication 1,2; the same key twice in a block), a pay-once post, delete by owner and non-owner, a prover joining, NextBlock (1 day; reward blocks drop prover-less old files) and a 31-day block (plan expiry); oracle: delta(SpaceUsed) = delta(footprint of the account's live plan-paid files as listed by AllFilesByOwner), bounds, free-space query, refused posts")
 		r.Assumptions = append(r.Assumptions, "at most 4 posts, 5 one-day blocks and one 31-day block per history")
 		r.AddExplore(C07{}, opts(tier, 5, 9, 60, 1200, 150, 2000))
+		r.Rules = append(r.Rules, "seeded variant: from a pay-once file (whose Merkle root sorts first) and a plan-paid file of another account, each with a prover, BFS over proofs, deletes by the owners and up to 7 one-day blocks (provers lapse, files are dropped)")
+		r.AddExplore(C07{Seeded: true}, opts(tier, 9, 12, 30, 300, 40, 300))
 	}}
 }
